@@ -604,6 +604,12 @@ class StateMachine:
                 self.done()
 
                 if self.__should_engage:
+                    # the machine starts over at the instant the last state
+                    # expired, so that every repetition lasts the same time
+                    self.__start += new_state_start
+                    self.__engaged = True
+                    tm = now - self.__start
+                    new_state_start = 0
                     self.next_state(self.__first)
                     state = self.__state
                 else:
